@@ -47,7 +47,10 @@ def cases(draw, prof=None):
         ops = [["another"]] * 60
     else:
         ops = draw(st.lists(st.one_of(st.just(["another"]), st.sampled_from(keys).map(lambda k: ["var", k])), min_size=1, max_size=25))
-    return {"spec": spec, "ops": ops, "seed": draw(st.integers(0, 2**30))}
+    kw = {}
+    if spec["objectives"] and draw(st.integers(0, 99)) < 40:
+        kw = {"max_iter": draw(st.integers(1, 3))}  # the optimisation is cut short: the enumeration that follows is judged all the same
+    return {"spec": spec, "ops": ops, "kw": kw, "seed": draw(st.integers(0, 2**30))}
 
 
 def projection(sched):
@@ -121,7 +124,7 @@ def run_history(ctx, case, check_name="C12.history"):
     spec, ops, seed = case["spec"], case["ops"], case["seed"]
     try:
         V, exhaustive = ground_truth(spec, seed)
-        h = B.build(spec, seed)
+        h = B.build(spec, seed, solver_kwargs=case.get("kw") or None)
     except B.BuildRejected as exc:
         ctx.event(f"build_rejected:{exc.stage}:{type(exc.exc).__name__}")
         return
@@ -135,7 +138,7 @@ def run_history(ctx, case, check_name="C12.history"):
     solver = h.solver
 
     def viol(rule, observed, step):
-        ctx.violation({"check": check_name, "rule": rule, "spec": spec, "seed": seed, "ops": ops[: step + 1],
+        ctx.violation({"check": check_name, "rule": rule, "spec": spec, "seed": seed, "ops": ops[: step + 1], "kw": case.get("kw") or {},
                        "probe": {"kind": "history", "step": step}, "observed": observed,
                        "signature": {"rule": rule, "classes": engine.classes_of(spec)}})
 
@@ -242,7 +245,7 @@ def replay(record):
     from ..runner import Ctx
     ctx = Ctx("C12", "quick", 0, 0, 1, collect=True)
     ctx.replaying = True
-    run_history(ctx, {"spec": record["spec"], "ops": record["ops"], "seed": record.get("seed", 0)})
+    run_history(ctx, {"spec": record["spec"], "ops": record["ops"], "kw": record.get("kw") or {}, "seed": record.get("seed", 0)})
     if ctx.violations:
         b, (sz, rec) = next(iter(ctx.violations.items()))
         return True, rec["observed"]
